@@ -19,6 +19,11 @@ def run_cov(verif, repo, build_one, jobs, tier, seed, env_base, log, scale='0.05
             notes.append('coverage build failed for %s' % j['src'])
             continue
         d = os.path.dirname(exe)
+        try:
+            with open(os.path.join(d, 'info.json')) as fh:
+                d = json.load(fh).get('compiled_in', d)  # .gcno/.gcda live where the compiler ran
+        except Exception:
+            pass
         for f in glob.glob(os.path.join(d, '*.gcda')) + glob.glob(os.path.join(d, '*.gcov')):
             os.unlink(f)
         out = os.path.join(d, 'cov_result.json')
